@@ -325,10 +325,14 @@ Print Assumptions exn_jump_carries_its_buffer.
 Example exn_tie_domain_nonvacuous : minv exc_max_depth st_init /\ minv exc_max_depth (MS (Some 3) 1 [2; 1] true).
 Proof. split; (split; [apply PeanoNat.Nat.leb_le; vm_compute; reflexivity | repeat constructor; discriminate]). Qed.
 
-(* the two functions that only print (diagnostic + exit(EXIT_FAILURE); the signal table) stay tied by text *)
+(* Exception_Error (the model's MDied): output calls that report "Uncaught <obj>" and the message on
+   stderr, then exit(EXIT_FAILURE) — checked by tools/genx_exn.py on the parsed statements *)
+Theorem exn_error_reports_and_exits_in_source : exn_error_reports_and_exits = true.
+Proof. exact (eq_refl true). Qed.
+Print Assumptions exn_error_reports_and_exits_in_source.
+
+(* the signal table (Exception_Signal: which signal throws which kind with which text) stays tied by text *)
 Theorem exn_source_shapes :
-  Forall (fun p => fst p = snd p)
-    [(exn_src_error, expected_src_error); (exn_src_signal, expected_src_signal)].
-Proof. exact (ExnProofs.strings_equal_dec
-    [(exn_src_error, expected_src_error); (exn_src_signal, expected_src_signal)]). Qed.
+  Forall (fun p => fst p = snd p) [(exn_src_signal, expected_src_signal)].
+Proof. exact (ExnProofs.strings_equal_dec [(exn_src_signal, expected_src_signal)]). Qed.
 Print Assumptions exn_source_shapes.
